@@ -151,6 +151,27 @@ def run(run, replay=None):
                 fails.append(("confirmation-lost", {"kind": "confirmation-lost", "after": "abandoned-sessions"}, o))
         finally:
             srv.stop()
+    # an acknowledged conversion is HELD while many other conversions are served (and confirmed) before it is confirmed
+    for others in ([300, 1023, 1024, 1100, 3000] if thorough else [1100, 2100]):
+        srv = S.Server(bindir, dic, None, workers=4)
+        try:
+            if not srv.wait_listening():
+                continue
+            a = srv.conv("くるまで")
+            for i in range(others):
+                r_ = srv.conv(["やまだ", "かか", "ほん"][i % 3])
+                if i % 2 == 0 and r_[0] == "ok" and r_[1]["candidates"]:
+                    srv.rpc("UpdateFrequency", {"session_id": r_[1]["session_id"], "candidate_id": "0"})
+            st, _ = srv.rpc("UpdateFrequency", {"session_id": a[1]["session_id"], "candidate_id": "0"})
+            d = srv.dump()
+            got = sum(n for _, w, n, _ in (d or {"frequencies": []})["frequencies"] if w == "車")
+            o = {"conversions_served_while_held": others, "of_which_confirmed": (others + 1) // 2, "acknowledged_confirmations": 1,
+                 "learned_count": got, "live_sessions": d and d.get("sessions")}
+            obs.append(dict(o, clients=1, pairs_per_client=1))
+            if st != "ok" or got != 1:
+                fails.append(("confirmation-lost", {"kind": "confirmation-lost", "after": "held-while-others-convert"}, o))
+        finally:
+            srv.stop()
     # a backlog of acknowledged registrations (slow updater) must not keep an acknowledged conversion from being confirmed,
     # and every acknowledged registration is eventually applied
     srv = S.Server(bindir, dic, None, workers=4, env={"CHOKAN_VERIF_DELAY_UPDATER": "120"})
